@@ -37,6 +37,7 @@ def build_harness(work, race=False):
     """Copies the harness module into the work dir and builds it against /repo's working tree with -tags verif."""
     src = os.path.join(ROOT, "harness")
     dst = os.path.join(work, "harness")
+    os.makedirs(work, exist_ok=True)
     shutil.copytree(src, dst, ignore=shutil.ignore_patterns("go.sum"))
     gomod = open(os.path.join(dst, "go.mod")).read().replace("=> /repo", "=> " + REPO)
     open(os.path.join(dst, "go.mod"), "w").write(gomod)
